@@ -121,10 +121,20 @@ def coq_deps(vfile):
     return seen
 
 
-def property_obligations(pid):
-    """Re-checks Properties/<pid>.v and reads its theorem list and Print Assumptions output.
-    returns dict(theorems=[...], assumptions={name: text}, ok=bool, log=str)"""
-    vfile = os.path.join("Properties", pid + ".v")
+def property_obligations(pid, extra=()):
+    """Re-checks Properties/<pid>.v (and the extra property files of the check) and reads the theorem
+    lists and Print Assumptions output.  returns dict(theorems=[...], assumptions={name: text}, ok=bool, log=str)"""
+    res = _property_obligations(os.path.join("Properties", pid + ".v"))
+    for vf in extra:
+        r = _property_obligations(vf)
+        res["theorems"] += r["theorems"]
+        res["assumptions"].update(r["assumptions"])
+        res["ok"] = res["ok"] and r["ok"]
+        res["log"] += r["log"]
+    return res
+
+
+def _property_obligations(vfile):
     src = open(os.path.join(COQ, vfile)).read()
     src_nc = re.sub(r"\(\*.*?\*\)", "", src, flags=re.S)
     theorems = re.findall(r"^\s*(?:Theorem|Example)\s+([A-Za-z0-9_']+)", src_nc, flags=re.M)
